@@ -1639,7 +1639,7 @@ func (e *emitter) stmts(sb *strings.Builder, list []ast.Stmt, n int) {
 		e.stmts(sb, rest, n)
 	case *ast.IfStmt:
 		if s.Init != nil {
-			e.checkInitShadow(s.Init)
+			e.checkInitShadow(s.Init, rest)
 			e.stmts1(sb, s.Init, n)
 		}
 		cond := e.expr(s.Cond, &h)
@@ -1674,7 +1674,7 @@ func (e *emitter) stmts(sb *strings.Builder, list []ast.Stmt, n int) {
 		e.stmts(sb, elseL, n+1)
 	case *ast.SwitchStmt:
 		if s.Init != nil {
-			e.checkInitShadow(s.Init)
+			e.checkInitShadow(s.Init, rest)
 			e.stmts1(sb, s.Init, n)
 		}
 		// desugar to an if-chain
@@ -1982,7 +1982,7 @@ func (e *emitter) stmts1(sb *strings.Builder, s ast.Stmt, n int) {
 
 // the init statement of an if/switch is emitted before it, so a name it defines
 // would stay visible afterwards; reject when that could change meaning.
-func (e *emitter) checkInitShadow(s ast.Stmt) {
+func (e *emitter) checkInitShadow(s ast.Stmt, rest []ast.Stmt) {
 	as, ok := s.(*ast.AssignStmt)
 	if !ok || as.Tok != token.DEFINE {
 		return
@@ -1990,7 +1990,20 @@ func (e *emitter) checkInitShadow(s ast.Stmt) {
 	for _, l := range as.Lhs {
 		if id, ok := l.(*ast.Ident); ok && id.Name != "_" {
 			if e.declared[id.Name] > 0 {
-				e.t.fail(s, "if-init redeclares %s (scoping not representable)", id.Name)
+				// the name shadows an earlier one for the length of the if/else chain only; in the translation it stays
+				// visible afterwards, which is harmless exactly when nothing after the chain mentions that name
+				used := false
+				for _, r := range rest {
+					ast.Inspect(r, func(n ast.Node) bool {
+						if x, ok := n.(*ast.Ident); ok && x.Name == id.Name && (e.t.L.info.Uses[x] != nil || e.t.L.info.Defs[x] != nil) {
+							used = true
+						}
+						return !used
+					})
+				}
+				if used {
+					e.t.fail(s, "if-init redeclares %s, which is used after the if statement (scoping not representable)", id.Name)
+				}
 			}
 		}
 	}
